@@ -43,6 +43,7 @@ def run_checks(root, props):
     """returns {prop: (exit code, output)}; evidence goes to the scratch dir"""
     os.environ['KV_OUTROOT'] = os.path.join(root, '_out')
     os.environ['KV_REPO'] = root
+    os.environ['KV_NO_LIVENESS'] = '1'
     from kv import checks
     from kv.src import AnalysisError
     res = {}
